@@ -567,7 +567,7 @@ func ruleLocationLoopComplete(c *Ctx, rule string) {
 	for _, fn := range c.reachableFrom(c.A.F("invalidate")) {
 		hasKey := false
 		instrsOf(fn, func(in ssa.Instruction) {
-			if cc := callOf(in); cc != nil && cc.IsInvoke() && cc.Method.Name() == "URLKey" {
+			if cc := callOf(in); cc != nil && cc.IsInvoke() && isURLKeyerMethod(cc) {
 				hasKey = true
 			}
 		})
